@@ -201,22 +201,43 @@ def multipart(fields):
 
 # --------------------------------------------------------------------------- concretisation
 
-def concretise(classes, rnd, idx, ups=1, target=None, root=None, prefix=False):
-    """class sequence -> bytes.  ups: every effective dot-dot class becomes `ups` dot-dot segments; target: replaces the
-    last plain segment (sentinel base name)."""
+# look-alike families (spec classes lkdot / lkup / lksep): Unicode compatibility forms and overlong UTF-8 of "." ".." "/"
+U = lambda cp: chr(cp).encode("utf-8")
+LOOKALIKES = [
+    {"id": "fullwidth",        "sep": U(0xFF0F), "dot": U(0xFF0E), "up": U(0xFF0E) * 2},     # NFKC -> "/" "." ".."
+    {"id": "leader",           "sep": U(0xFF0F), "dot": U(0x2024), "up": U(0x2025)},          # one / two dot leader
+    {"id": "ascii-dots",       "sep": U(0xFF0F), "dot": b".",      "up": b".."},              # real dots, look-alike separator only
+    {"id": "small-fraction",   "sep": U(0x2044), "dot": U(0xFE52), "up": U(0xFE52) * 2},     # fraction slash, small full stop
+    {"id": "division",         "sep": U(0x2215), "dot": U(0x2024), "up": U(0x2024) * 2},     # division slash
+    {"id": "overlong2",        "sep": b"\xc0\xaf", "dot": b"\xc0\xae", "up": b"\xc0\xae\xc0\xae"},       # overlong 2-byte UTF-8
+    {"id": "overlong3",        "sep": b"\xe0\x80\xaf", "dot": b"\xe0\x80\xae", "up": b"\xe0\x80\xae" * 2},
+]
+
+
+def concretise(classes, rnd, idx, ups=1, target=None, root=None, prefix=False, lk=0):
+    """class sequence -> bytes.  ups: every effective dot-dot (real or look-alike) becomes `ups` dot-dot segments; target:
+    replaces the last plain segment (sentinel base name); lk: which look-alike family is used."""
+    fam = LOOKALIKES[lk % len(LOOKALIKES)]
     out = []
     last_plain = max([i for i, c in enumerate(classes) if c == "plain"], default=None)
+    seps = ("sep", "abs", "lksep")
     for i, c in enumerate(classes):
         if c == "plain":
             out.append((target if (target and i == last_plain) else "p%dx%d" % (idx, i)).encode())
         elif c == "dot":
             out.append(b".")
-        elif c == "up":
-            prev_ok = i == 0 or classes[i - 1] in ("sep", "abs")
-            next_ok = i == len(classes) - 1 or classes[i + 1] == "sep"
-            out.append(b"/".join([b".."] * ups) if (prev_ok and next_ok) else b"..")
+        elif c == "lkdot":
+            out.append(fam["dot"])
+        elif c in ("up", "lkup"):
+            one = b".." if c == "up" else fam["up"]
+            prev_ok = i == 0 or classes[i - 1] in seps
+            next_ok = i == len(classes) - 1 or classes[i + 1] in seps
+            joiner = fam["sep"] if (i + 1 < len(classes) and classes[i + 1] == "lksep") or (c == "lkup" and (i + 1 == len(classes) or classes[i + 1] != "sep")) else b"/"
+            out.append(joiner.join([one] * ups) if (prev_ok and next_ok) else one)
         elif c == "sep":
             out.append(b"/")
+        elif c == "lksep":
+            out.append(fam["sep"])
         elif c == "abs":
             out.append((root + "/a/").encode())      # leading "/" + an absolute path into the sentinel tree
         elif c == "encsep":
@@ -231,32 +252,48 @@ def concretise(classes, rnd, idx, ups=1, target=None, root=None, prefix=False):
     return name
 
 
-def variants(name):
-    """(tag, name as the client types it) - for URL transports the tag says how the path segment is encoded"""
-    return [("raw", name), ("urlenc", name), ("dblenc", name)]
-
-
 # --------------------------------------------------------------------------- per-API requests
 
-def jbody(o):
-    return json.dumps(o).encode()
+NAME = "@@C19NAME@@"       # placeholder inside JSON documents; replaced by the (escaped) raw bytes of the name
 
 
-def jstr(b):
-    """bytes -> python str for a JSON body (NUL and non-UTF8 preserved through latin1)"""
-    return b.decode("latin1")
+def json_escape_bytes(b):
+    out = bytearray()
+    for c in b:
+        if c == 0x22:
+            out += b'\\"'
+        elif c == 0x5C:
+            out += b"\\\\"
+        elif c < 0x20 or c == 0x7F:
+            out += b"\\u%04x" % c
+        else:
+            out.append(c)          # bytes >= 0x80 go out raw: valid UTF-8 stays what it is, invalid UTF-8 reaches the server as sent
+    return bytes(out)
+
+
+def jbody(o, name=b""):
+    return json.dumps(o).encode().replace(NAME.encode(), json_escape_bytes(name))
+
+
+UNSAFE_BYTES = set(range(0, 33)) | {0x7f, ord("%"), ord("?"), ord("#")}
+
+
+def enc_bytes(b):
+    return b"".join(b"%%%02X" % c if c in UNSAFE_BYTES else bytes([c]) for c in b)
 
 
 def url_seg(name, tag):
     if tag == "raw":
         return enc_min(name)
+    if tag == "bytes":          # bytes >= 0x80 unescaped in the request line (the router matches on the raw path)
+        return enc_bytes(name)
     if tag == "urlenc":
         return enc_all(name)
     return enc_all(enc_all(name))
 
 
 def body_name(name, tag):
-    if tag == "raw":
+    if tag in ("raw", "bytes"):
         return name
     if tag == "urlenc":
         return enc_all(name)
@@ -278,89 +315,174 @@ class Server:
 NOW_MS = 1_700_000_000_000
 
 
-def requests_for(api, name, tag, srv, idx):
-    """-> (list of (port, raw request), list of driver ops to run afterwards)"""
+def call(fn, method, user, body=b"", uri="/"):
+    """handler-level request: executed by the driver op paths_call"""
+    return ("call", fn, method, user, body, uri)
+
+
+def requests_for(api, name, tag, srv, idx, entry="http"):
+    """-> (list of (port, raw request) | call(...), list of driver ops to run afterwards)"""
     I, Q = srv.ip, srv.qp
     seg = url_seg(name, tag)
-    bn = jstr(body_name(name, tag))
+    bn = body_name(name, tag)          # bytes
+    hv = body_name(name, tag)          # what a route parameter carries at the handler entry
+    J = lambda o: jbody(o, bn)
+    H = entry == "handler"
     if api == "lookup-upload":
         out = []
         for ow in (b"true", b"false"):
-            body, ct = multipart([("name", None, body_name(name, tag)), ("overwrite", None, ow),
-                                  ("file", "up.csv", b"col\nUPLOADED-%d\n" % idx)])
+            body, ct = multipart([("name", None, bn), ("overwrite", None, ow), ("file", "up.csv", b"col\nUPLOADED-%d\n" % idx)])
             out.append((Q, req("POST", "/api/lookup-upload", body, ct)))
         return out, []
     if api == "lookup-get":
-        return [(Q, req("GET", b"/api/lookup-files/" + seg))], []
+        return ([call("lookup-get", "GET", {"lookupFilename": hv})] if H else [(Q, req("GET", b"/api/lookup-files/" + seg))]), []
     if api == "lookup-delete":
-        return [(Q, req("DELETE", b"/api/lookup-files/" + seg))], []
+        return ([call("lookup-delete", "DELETE", {"lookupFilename": hv})] if H else [(Q, req("DELETE", b"/api/lookup-files/" + seg))]), []
     if api == "inputlookup":
         out = []
         for ext in (".csv", ".csv.gz"):
             for quote in ("", '"'):
-                q = {"searchText": "| inputlookup %s%s%s%s" % (quote, bn, ext, quote), "startEpoch": "now-1h", "endEpoch": "now",
-                     "indexName": "*", "queryLanguage": "Splunk QL"}
-                out.append((Q, req("POST", "/api/search", jbody(q))))
+                q = {"searchText": "| inputlookup %s%s%s%s" % (quote, NAME, ext, quote), "startEpoch": "now-1h",
+                     "endEpoch": "now", "indexName": "*", "queryLanguage": "Splunk QL"}
+                out.append((Q, req("POST", "/api/search", J(q))))
         return out, []
     if api == "bulk-index":
-        body = (json.dumps({"index": {"_index": bn}}) + "\n" + json.dumps({"timestamp": NOW_MS, "msg": "x%d" % idx}) + "\n").encode()
+        body = J({"index": {"_index": NAME}}) + b"\n" + json.dumps({"timestamp": NOW_MS, "msg": "x%d" % idx}).encode() + b"\n"
         return [(I, req("POST", "/elastic/_bulk", body))], ["flush", "rotate"]
     if api == "put-index":
-        b = jbody({"mappings": {"properties": {"f": {"type": "keyword"}}}})
+        b = json.dumps({"mappings": {"properties": {"f": {"type": "keyword"}}}}).encode()
+        if H:
+            return [call("put-index", "PUT", {"indexName": hv}, b)], []
         return [(I, req("PUT", b"/elastic/" + seg, b)), (I, req("PUT", b"/elastic/" + seg + b"/_mapping", b)),
                 (Q, req("PUT", b"/elastic/" + seg, b))], []
     if api == "doc-index":
-        b = jbody({"timestamp": NOW_MS, "msg": "d%d" % idx})
+        b = json.dumps({"timestamp": NOW_MS, "msg": "d%d" % idx}).encode()
+        if H:
+            return [call("doc-index", "POST", {"indexName": hv}, b)], ["flush", "rotate"]
         return [(I, req("POST", b"/elastic/" + seg + b"/_doc", b))], ["flush", "rotate"]
     if api == "alias-put":
+        if H:
+            return [call("alias-put", "PUT", {"indexName": hv, "aliasName": b"al%d" % idx}),
+                    call("alias-put", "PUT", {"indexName": b"idx0", "aliasName": hv})], []
         return [(Q, req("PUT", b"/elastic/" + seg + b"/_alias/al%d" % idx)), (Q, req("PUT", b"/elastic/idx0/_alias/" + seg))], []
     if api == "aliases-add":
-        return [(Q, req("POST", "/elastic/_aliases", jbody({"actions": [{"add": {"index": bn, "alias": "al%d" % idx}}]}))),
-                (Q, req("POST", "/elastic/_aliases", jbody({"actions": [{"add": {"indices": [bn], "alias": "bl%d" % idx}}]}))),
-                (Q, req("POST", "/elastic/_aliases", jbody({"actions": [{"add": {"index": "idx0", "alias": bn}}]})))], []
+        return [(Q, req("POST", "/elastic/_aliases", J({"actions": [{"add": {"index": NAME, "alias": "al%d" % idx}}]}))),
+                (Q, req("POST", "/elastic/_aliases", J({"actions": [{"add": {"indices": [NAME], "alias": "bl%d" % idx}}]}))),
+                (Q, req("POST", "/elastic/_aliases", J({"actions": [{"add": {"index": "idx0", "alias": NAME}}]})))], []
     if api == "aliases-remove":
-        return [(Q, req("POST", "/elastic/_aliases", jbody({"actions": [{"remove": {"index": bn, "alias": ALIASKEY}}]})))], []
+        return [(Q, req("POST", "/elastic/_aliases", J({"actions": [{"remove": {"index": NAME, "alias": ALIASKEY}}]})))], []
     if api == "alias-get":
+        if H:
+            return [call("alias-get-index", "GET", {"indexName": hv, "aliasName": b"x"}), call("alias-get", "GET", {"aliasName": hv})], []
         return [(Q, req("GET", b"/elastic/" + seg + b"/_alias/x")), (Q, req("GET", b"/elastic/_alias/" + seg)),
                 (Q, req("HEAD", b"/elastic/" + seg + b"/_alias/x"))], []
     if api == "index-delete":
+        if H:
+            return [call("index-delete", "DELETE", {"indexName": hv})], []
         return [(Q, req("DELETE", b"/elastic/" + seg)), (Q, req("POST", b"/api/deleteIndex/" + seg))], []
     if api == "dashboard-get":
-        return [(Q, req("GET", b"/api/dashboards/" + seg))], []
+        return ([call("dashboard-get", "GET", {"dashboard-id": hv})] if H else [(Q, req("GET", b"/api/dashboards/" + seg))]), []
     if api == "dashboard-fav":
-        return [(Q, req("PUT", b"/api/dashboards/favorite/" + seg))], []
+        return ([call("dashboard-fav", "PUT", {"dashboard-id": hv})] if H else [(Q, req("PUT", b"/api/dashboards/favorite/" + seg))]), []
     if api == "dashboard-update":
-        return [(Q, req("POST", "/api/dashboards/update", jbody({"id": bn, "details": {"name": "n%d" % idx, "description": "d"}})))], []
+        return [(Q, req("POST", "/api/dashboards/update", J({"id": NAME, "details": {"name": "n%d" % idx, "description": "d"}})))], []
     if api == "dashboard-delete":
-        return [(Q, req("GET", b"/api/dashboards/delete/" + seg))], []
+        return ([call("dashboard-delete", "GET", {"dashboard-id": hv})] if H else [(Q, req("GET", b"/api/dashboards/delete/" + seg))]), []
     if api == "folder-create":
-        return [(Q, req("POST", "/api/dashboards/folders/create", jbody({"name": bn, "parentId": "root-folder"}))),
-                (Q, req("POST", "/api/dashboards/folders/create", jbody({"name": "f%d" % idx, "parentId": bn}))),
-                (Q, req("POST", "/api/dashboards/create", jbody({"name": bn, "description": "d", "parentId": "root-folder"})))], []
+        return [(Q, req("POST", "/api/dashboards/folders/create", J({"name": NAME, "parentId": "root-folder"}))),
+                (Q, req("POST", "/api/dashboards/folders/create", J({"name": "f%d" % idx, "parentId": NAME}))),
+                (Q, req("POST", "/api/dashboards/create", J({"name": NAME, "description": "d", "parentId": "root-folder"})))], []
     if api == "folder-get":
-        return [(Q, req("GET", b"/api/dashboards/folders/" + seg)), (Q, req("DELETE", b"/api/dashboards/folders/" + seg))], []
+        if H:
+            return [call("folder-get", "GET", {"folder-id": hv}), call("folder-count", "GET", {"folder-id": hv}),
+                    call("folder-update", "PUT", {"folder-id": hv}, json.dumps({"name": "r%d" % idx}).encode())], []
+        return [(Q, req("GET", b"/api/dashboards/folders/" + seg)), (Q, req("GET", b"/api/dashboards/folders/" + seg + b"/count")),
+                (Q, req("PUT", b"/api/dashboards/folders/" + seg, json.dumps({"name": "r%d" % idx}).encode()))], []
+    if api == "folder-delete":
+        return ([call("folder-delete", "DELETE", {"folder-id": hv})] if H else [(Q, req("DELETE", b"/api/dashboards/folders/" + seg))]), []
     if api == "usq-save":
-        return [(Q, req("POST", "/api/usersavedqueries/save", jbody({"queryName": bn, "queryDescription": "d", "searchText": "*",
-                                                                     "indexName": "*", "queryLanguage": "Splunk QL"})))], []
+        return [(Q, req("POST", "/api/usersavedqueries/save", J({"queryName": NAME, "queryDescription": "d", "searchText": "*",
+                                                                 "indexName": "*", "queryLanguage": "Splunk QL"})))], []
     if api == "usq-delete":
+        if H:
+            return [call("usq-get", "GET", {"qname": hv}), call("usq-delete", "GET", {"qname": hv})], []
         return [(Q, req("GET", b"/api/usersavedqueries/" + seg)), (Q, req("GET", b"/api/usersavedqueries/deleteone/" + seg))], []
+    if api == "alert-get":
+        if H:
+            return [call("alert-get", "GET", {"alertID": hv}), call("alert-history", "GET", {"alertID": hv})], []
+        return [(Q, req("GET", b"/api/alerts/" + seg)), (Q, req("GET", b"/api/alerts/" + seg + b"/history"))], []
+    if api == "alert-delete":
+        return [(Q, req("DELETE", "/api/alerts/delete", J({"alert_id": NAME, "alert_name": NAME})))], []
+    if api == "contact-delete":
+        return [(Q, req("DELETE", "/api/alerts/deleteContact", J({"contact_id": NAME})))], []
     if api == "scroll-id":
-        return [(Q, req("POST", "/elastic/_search?scroll=1m", jbody({"scroll": "1m", "scroll_id": bn, "query": {"match_all": {}}}))),
-                (Q, req("POST", "/elastic/_search", jbody({"scroll_id": bn})))], []
+        return [(Q, req("POST", "/elastic/_search?scroll=1m", J({"scroll": "1m", "scroll_id": NAME, "query": {"match_all": {}}}))),
+                (Q, req("POST", "/elastic/_search", J({"scroll_id": NAME})))], []
     if api == "metric-name":
-        return [(I, req("POST", "/otsdb/api/put", jbody([{"metric": bn, "timestamp": NOW_MS // 1000, "value": 1.5, "tags": {"host": "h"}}])))], []
+        return [(I, req("POST", "/otsdb/api/put", J([{"metric": NAME, "timestamp": NOW_MS // 1000, "value": 1.5, "tags": {"host": "h"}}])))], []
     if api == "metric-tagkey":
-        return [(I, req("POST", "/otsdb/api/put", jbody([{"metric": "m%d" % idx, "timestamp": NOW_MS // 1000, "value": 1.5,
-                                                          "tags": {bn: "v", "host": "h"}}])))], []
+        return [(I, req("POST", "/otsdb/api/put", J([{"metric": "m%d" % idx, "timestamp": NOW_MS // 1000, "value": 1.5,
+                                                      "tags": {NAME: "v", "host": "h"}}])))], []
     raise vlib.Infra("no request builder for api %s" % api)
 
 
-FIXED_PATH_APIS = ("folder-create", "folder-get", "usq-save", "usq-delete", "metric-name")
+FIXED_PATH_APIS = ("folder-create", "folder-get", "folder-delete", "usq-save", "usq-delete", "metric-name", "alert-get", "alert-delete",
+                   "contact-delete")
 BATCH_APIS = {"metric-name": ["mrotate"], "metric-tagkey": ["mrotate"]}    # effects appear at the (once per life) shutdown flush
 
 
+# ---- store histories: a legitimate object of the API's store is created / created and deleted before the hostile ids are used
+
+def _resp_json(resp):
+    try:
+        return json.loads(resp.split(b"\r\n\r\n", 1)[-1].decode("utf8", "replace"))
+    except ValueError:
+        return None
+
+
+def legit_create(api, srv, n):
+    """-> handle (whatever legit_delete needs) or None if the store refused"""
+    Q = srv.qp
+    if api.startswith("dashboard"):
+        r = _resp_json(http(Q, req("POST", "/api/dashboards/create", json.dumps({"name": "legit%d" % n, "description": "d", "parentId": "root-folder"}).encode())))
+        return next(iter(r), None) if isinstance(r, dict) and r else None
+    if api.startswith("folder"):
+        r = _resp_json(http(Q, req("POST", "/api/dashboards/folders/create", json.dumps({"name": "legitf%d" % n, "parentId": "root-folder"}).encode())))
+        return (r or {}).get("id") if isinstance(r, dict) else None
+    if api.startswith("usq"):
+        r = http(Q, req("POST", "/api/usersavedqueries/save", json.dumps({"queryName": "legitq%d" % n, "queryDescription": "d", "searchText": "*",
+                                                                          "indexName": "*", "queryLanguage": "Splunk QL"}).encode()))
+        return "legitq%d" % n if r.startswith(b"HTTP/1.1 200") else None
+    if api.startswith("alert") or api.startswith("contact"):
+        http(Q, req("POST", "/api/alerts/createContact", json.dumps({"contact_name": "legitc%d" % n, "webhook": [{"webhook": "http://127.0.0.1:9/hook"}]}).encode()))
+        r = _resp_json(http(Q, req("GET", "/api/alerts/allContacts")))
+        for c in ((r or {}).get("contacts") or []) if isinstance(r, dict) else []:
+            if c.get("contact_name") == "legitc%d" % n:
+                return c.get("contact_id")
+        return None
+    return None
+
+
+def legit_delete(api, srv, h):
+    Q = srv.qp
+    if h is None:
+        return False
+    if api.startswith("dashboard"):
+        return http(Q, req("GET", "/api/dashboards/delete/" + h)).startswith(b"HTTP/1.1 200")
+    if api.startswith("folder"):
+        return http(Q, req("DELETE", "/api/dashboards/folders/" + h)).startswith(b"HTTP/1.1 200")
+    if api.startswith("usq"):
+        return http(Q, req("GET", "/api/usersavedqueries/deleteone/" + h)).startswith(b"HTTP/1.1 200")
+    if api.startswith("alert") or api.startswith("contact"):
+        return http(Q, req("DELETE", "/api/alerts/deleteContact", json.dumps({"contact_id": h}).encode())).startswith(b"HTTP/1.1 200")
+    return False
+
+
 def run_api(binary, api, cases, seed):
-    """cases: list of {classes, predicted, base, suffix, name(bytes), tag, key}.  One server life per API."""
+    """cases: list of {classes, predicted, entry, hist, tag, ups, target, lk, ...}.  One server life; store histories are played in
+    the order fresh -> created -> deleted."""
+    import base64
+    import glob
     outer = vlib.scratch("c19-" + api)
     # two guard directories above the sentinel tree: a traversal that climbs higher than the model assumes still lands inside
     # the scratch directory of this run (and is seen by the snapshot, which covers `outer`)
@@ -371,23 +493,60 @@ def run_api(binary, api, cases, seed):
     try:
         files = build_tree(root)
         for c in cases:     # names may refer to the root of THIS tree
-            c["name"] = concretise(c["classes"], None, c["idx"], ups=c["ups"], target=c.get("target"), root=root, prefix=c.get("prefix", False))
+            c["name"] = concretise(c["classes"], None, c["idx"], ups=c["ups"], target=c.get("target"), root=root, prefix=c.get("prefix", False),
+                                   lk=c.get("lk", 0))
         srv = Server(binary, root)
         before = snapshot(root)
         if set(os.path.normpath(p) for p, v in before.items() if v[0] == "f") != set(os.path.normpath(f) for f in files):
             raise vlib.Infra("sentinel tree is not what was built")
         pending = []
+        order = {"fresh": 0, "created": 1, "deleted": 2}
+        cases = sorted(cases, key=lambda c: order[c.get("hist", "fresh")])
+        state, handle, hist_ok = "fresh", None, {}
         for c in cases:
-            reqs, ops = requests_for(api, c["name"], c["tag"], srv, c["idx"])
+            want = c.get("hist", "fresh")
+            while state != want:
+                if state == "fresh":
+                    handle = legit_create(api, srv, c["idx"])
+                    hist_ok["created"] = handle is not None
+                    state = "created"
+                elif state == "created":
+                    hist_ok["deleted"] = legit_delete(api, srv, handle)
+                    state = "deleted"
+                else:
+                    break
+                eff = diff(before, snapshot(root))      # legitimate operations must not touch the outside either
+                if eff:
+                    results.append({"case": {"key": "legit-" + state, "classes": ["legit-" + state], "predicted": "Confined", "tag": "-", "name": b"(legitimate object)",
+                                             "idx": -1, "ups": 1, "entry": "http", "hist": state}, "statuses": [], "leak": None, "effects": eff})
+                    restore(root, files, eff)
+                    before = snapshot(root)
+            reqs, ops = requests_for(api, c["name"], c["tag"], srv, c["idx"], c.get("entry", "http"))
             leak = None
             statuses = []
-            for port, raw in reqs:
-                resp = http(port, raw)
-                statuses.append(resp[9:12].decode("latin1") if resp.startswith(b"HTTP/") else "---")
-                body = resp.split(b"\r\n\r\n", 1)[-1]
-                if TOKEN in body and TOKEN not in raw:
-                    i = body.find(TOKEN)
-                    leak = body[max(0, i - 40):i + 60].decode("latin1")
+            for rq in reqs:
+                if rq[0] == "call":
+                    _, fn, method, user, body, uri = rq
+                    try:
+                        o = srv.dr.cmd("paths_call", timeout=60, fn=fn, method=method, uri=uri,
+                                       user={k: base64.b64encode(v).decode() for k, v in user.items()},
+                                       body_b64=base64.b64encode(body).decode())
+                    except vlib.DriverDead as e:
+                        raise vlib.Infra("driver died during %s/%s: %s" % (api, c["key"], e))
+                    if not o.get("ok"):
+                        statuses.append("PANIC" if "PANIC" in (o.get("err") or "") else "ERR")
+                        body_out, raw = (o.get("err") or "").encode(), b""
+                    else:
+                        statuses.append(str(o["res"]["status"]))
+                        body_out, raw = base64.b64decode(o["res"]["body_b64"]), b""
+                else:
+                    port, raw = rq
+                    resp = http(port, raw)
+                    statuses.append(resp[9:12].decode("latin1") if resp.startswith(b"HTTP/") else "---")
+                    body_out = resp.split(b"\r\n\r\n", 1)[-1]
+                if TOKEN in body_out and TOKEN not in raw:
+                    i = body_out.find(TOKEN)
+                    leak = body_out[max(0, i - 40):i + 60].decode("latin1")
             try:
                 for op in ops:
                     srv.dr.ok(op)
@@ -411,7 +570,6 @@ def run_api(binary, api, cases, seed):
             eff = diff(before, snapshot(root))
             # exact attribution: an effect belongs to the case whose name, appended to one of the tags-tree base directories
             # the engine really used, normalises to the affected path
-            import glob
             bases = [b for b in glob.glob(os.path.join(root, "a", "b", "data", "*", "final", "tth", "*", "*")) if os.path.isdir(b)]
             for kind, rel in eff:
                 full = os.path.normpath(os.path.join(root, rel))
@@ -420,22 +578,23 @@ def run_api(binary, api, cases, seed):
                     nm = res["case"]["name"].decode("latin1")
                     if "\x00" in nm:
                         continue
-                    for tagenc in (nm,):
-                        if any(os.path.normpath(b + "/" + tagenc) == full or os.path.normpath(b + "/" + tagenc).startswith(full + "/") for b in bases):
-                            owner = res
-                            break
-                    if owner:
+                    if any(os.path.normpath(b + "/" + nm) == full or os.path.normpath(b + "/" + nm).startswith(full + "/") for b in bases):
+                        owner = res
                         break
                 if owner is None:
-                    owner = {"case": {"key": "unattributed", "classes": ["?"], "predicted": "?", "tag": "-", "name": b"?", "idx": -1, "ups": 0},
+                    owner = {"case": {"key": "unattributed", "classes": ["?"], "predicted": "?", "tag": "-", "name": b"?", "idx": -1, "ups": 0,
+                                      "entry": "http", "hist": "fresh"},
                              "statuses": [], "leak": None, "effects": []}
                     results.append(owner)
                 owner["effects"].append((kind, rel))
         # the process must still be alive and serving
         alive = http(srv.qp, req("GET", "/api/health"))
         if not alive.startswith(b"HTTP/1.1 200"):
-            results.append({"case": {"key": "health", "classes": [], "predicted": "-", "tag": "-", "name": b"", "idx": -1},
+            results.append({"case": {"key": "health", "classes": [], "predicted": "-", "tag": "-", "name": b"", "idx": -1, "entry": "http",
+                                     "hist": "fresh"},
                             "statuses": [alive[:30].decode("latin1")], "leak": None, "effects": [], "dead": True})
+        if results:
+            results[0]["hist_ok"] = hist_ok
         return results
     finally:
         if srv is not None:
@@ -445,122 +604,179 @@ def run_api(binary, api, cases, seed):
 
 # --------------------------------------------------------------------------- the check
 
+# class sequences that are ALWAYS replayed, depth-amplified, for every (api, entry, store history) - whatever the model predicts
+CORE_ASCII = [["up", "sep", "plain"], ["up", "sep"], ["up"], ["plain", "sep", "up"]]
+CORE_LOOKALIKE = [["lkup", "lksep", "plain"], ["lkup", "sep", "plain"], ["up", "lksep", "plain"], ["lkup", "lksep"]]
+
+
 def run(chk):
     quick = chk.tier == "quick"
     r = vlib.run_tlc("Paths", "MC_Paths_quick.cfg" if quick else "MC_Paths.cfg", timeout=1200, coverage=quick)
     vlib.tlc_must_hold(r, "Paths (guarded call sites)")
-    chk.add_tlc("MC_Paths", r, "Confined for every api x name of <= %d classes with the confinement guard at every call site" % (3 if quick else 4))
+    chk.add_tlc("MC_Paths", r, "Confined for every (api, entry, history) x name with a single-path-component guard at every call site: "
+                + ("all 11 classes, <= 3 per name" if quick else "core classes, <= 4 per name"))
     r2 = vlib.run_tlc("Paths", "MC_Paths_ascode.cfg", timeout=600)
-    if "Confined" not in r2.violated:
-        raise vlib.Infra("model sensitivity lost: the as-coded model no longer violates Confined")
-    chk.add_tlc("MC_Paths_ascode", r2, "code as it is (no guard): Confined is expected to fail - the escaping pairs are replay candidates, not verdicts")
-    # (names of 4 classes are model-checked in the thorough tier; the replay uses the <= 3 class export plus depth amplification)
+    if r2.error and not r2.violated:
+        raise vlib.Infra("Paths as-coded run failed: %s" % r2.error)
+    chk.add_tlc("MC_Paths_ascode", r2, "guards as in the code: the escaping (api, entry, name) triples are replay candidates, not verdicts"
+                + ("" if r2.violated else " (none: every modelled call site is guarded)"))
+    r3 = vlib.run_tlc("Paths", "MC_Paths_normafter.cfg", timeout=600)
+    if "Confined" not in r3.violated:
+        raise vlib.Infra("model sensitivity lost: normalising a name after its guard no longer violates Confined")
+    chk.add_tlc("MC_Paths_normafter", r3, "sensitivity: a call site that normalises look-alikes AFTER its guard violates Confined (expected)")
     beh, rg = vlib.tlc_generate("Gen_Paths", "Gen_Paths.cfg", timeout=1500)
-    chk.add_tlc("Gen_Paths", rg, "export of every (api, name class sequence) with the predicted outcome")
+    chk.add_tlc("Gen_Paths", rg, "export of every (api, entry, history, name class sequence) with the predicted outcome")
     if not beh:
         raise vlib.Infra("no cases generated")
 
     rnd = random.Random(chk.seed * 7919 + 19)
-    by_api = {}
+    groups = {}
     for b in beh:
-        by_api.setdefault(b["api"], []).append(b)
+        groups.setdefault((b["api"], b["entry"]), []).append(b)
     binary = vlib.build_driver()
     work = []
     total_cases = 0
-    for api in sorted(by_api):
-        lst = by_api[api]
-        base = lst[0]["base"]
-        esc = [b for b in lst if b["predicted"] == "Escapes"]
-        short = [b for b in lst if len(b["name"]) <= 2 and b["predicted"] != "Escapes"]
-        rest = [b for b in lst if len(b["name"]) > 2 and b["predicted"] != "Escapes"]
-        if quick:
-            rest = rnd.sample(rest, min(len(rest), 60))
-        elif api in ("bulk-index", "doc-index"):
-            rest = rnd.sample(rest, min(len(rest), 1500))      # each case costs a flush + rotate
-        elif api in FIXED_PATH_APIS:
-            # the path does not depend on the name; folder_structure.json / usq.json are rewritten on every request (quadratic)
-            rest = rnd.sample(rest, min(len(rest), 300))
+    for (api, entry) in sorted(groups):
+        lst_all = groups[(api, entry)]
+        hists = sorted(set(b["hist"] for b in lst_all), key=["fresh", "created", "deleted"].index)
+        base = lst_all[0]["base"]
+        pathparam = lst_all[0]["transport"] == "pathparam"
+        by_name = {(b["hist"], tuple(b["name"])): b for b in lst_all}
         cases = []
         idx = 0
 
-        def add(b, tag, ups, target=None, prefix=False):
+        def add(b, tag, ups, target=None, prefix=False, lk=0, hist="fresh"):
             nonlocal idx
             idx += 1
             cases.append({"classes": b["name"], "predicted": b["predicted"], "base": base, "suffix": b["suffix"], "tag": tag, "ups": ups,
-                          "target": target, "prefix": prefix, "idx": idx, "key": "-".join(b["name"]) + ("" if tag == "raw" else ":" + tag) +
-                          ("" if ups == 1 else ":x%d" % ups) + ("" if not target else ":" + target) + (":pfx" if prefix else "")})
-        for b in short + rest:
-            tags = ["raw", "urlenc", "dblenc"] if (not quick or len(b["name"]) <= 2) else [rnd.choice(["raw", "urlenc", "dblenc"])]
-            for tag in tags:
-                add(b, tag, 1)
-        # every class sequence containing a dot-dot is also depth-amplified so that it can reach the sentinel levels
-        amp = [b for b in lst if "up" in b["name"]]
+                          "target": target, "prefix": prefix, "lk": lk, "entry": entry, "hist": hist, "idx": idx,
+                          "key": "-".join(b["name"]) + ("" if tag == "raw" else ":" + tag) + ("" if ups == 1 else ":x%d" % ups) +
+                                 ("" if not target else ":" + target) + (":pfx" if prefix else "") +
+                                 (":" + LOOKALIKES[lk % len(LOOKALIKES)]["id"] if any(c.startswith("lk") for c in b["name"]) else "")})
+
+        def lookup(seq, hist):
+            return by_name.get((hist, tuple(seq))) or {"name": list(seq), "predicted": "?", "suffix": lst_all[0]["suffix"]}
+
+        # ---- core: canonical traversal forms, real and look-alike, in every store history
+        lkc = rnd.randrange(len(LOOKALIKES))
+        for hist in hists:
+            for seq in CORE_ASCII:
+                b = lookup(seq, hist)
+                for ups in (base + 1, base + 2, base + 3):
+                    for tg in (["s", "al", "nw"] if seq[-1] == "plain" else [None]):
+                        add(b, "raw", ups, tg, hist=hist)
+                if seq == ["up", "sep", "plain"]:
+                    add(b, "raw", base + 1, "s", prefix=True, hist=hist)
+                    add(b, "urlenc", base + 1, "s", hist=hist)
+            for seq in CORE_LOOKALIKE:
+                b = lookup(seq, hist)
+                for ups in (base + 1, base + 2, base + 3):
+                    for tg in (["s", "al", "nw"] if seq[-1] == "plain" else [None]):
+                        lkc += 1          # rotate through the look-alike families: every family meets every core form
+                        add(b, "bytes" if (pathparam and entry == "http") else "raw", ups, tg, lk=lkc, hist=hist)
+            if hist == "fresh":
+                # every look-alike family on the canonical form (one depth, existing + new target)
+                b = lookup(CORE_LOOKALIKE[0], hist)
+                for lk in range(len(LOOKALIKES)):
+                    for tg in ("s", "nw"):
+                        add(b, "raw", base + 1, tg, lk=lk, hist=hist)
+        # ---- the TLC export of the first history, sampled in the quick tier
+        lst = [b for b in lst_all if b["hist"] == hists[0]]
+        esc = [b for b in lst if b["predicted"] == "Escapes"]
+        one = [b for b in lst if len(b["name"]) == 1]
+        two = [b for b in lst if len(b["name"]) == 2 and b["predicted"] != "Escapes"]
+        rest = [b for b in lst if len(b["name"]) > 2 and b["predicted"] != "Escapes"]
         if quick:
-            amp = esc + rnd.sample([b for b in amp if b not in esc], min(40, len([b for b in amp if b not in esc])))
-        if api in FIXED_PATH_APIS and not quick:
-            amp = rnd.sample(amp, min(len(amp), 60))
+            two = rnd.sample(two, min(len(two), 30))
+            rest = rnd.sample(rest, min(len(rest), 40))
+        elif api in ("bulk-index", "doc-index"):
+            rest = rnd.sample(rest, min(len(rest), 1200))      # each case costs a flush + rotate
+        elif api in FIXED_PATH_APIS:
+            # the path does not depend on the name; folder_structure.json / usq.json are rewritten on every request (quadratic)
+            two = rnd.sample(two, min(len(two), 60))
+            rest = rnd.sample(rest, min(len(rest), 200))
+        tagset = ["raw", "urlenc", "dblenc"]
+        for b in one:
+            for tag in tagset:
+                add(b, tag, 1, lk=rnd.randrange(len(LOOKALIKES)))
+        for b in two + rest:
+            for tag in (tagset if not quick else [rnd.choice(tagset)]):
+                add(b, tag, 1, lk=rnd.randrange(len(LOOKALIKES)))
+        # every class sequence containing a (real or look-alike) dot-dot is also depth-amplified so that it can reach the sentinels
+        amp = [b for b in lst if ("up" in b["name"] or "lkup" in b["name"]) and b not in esc]
+        amp = esc + rnd.sample(amp, min(len(amp), 12 if quick else (40 if api in FIXED_PATH_APIS else 400)))
         for b in amp:
             for ups in (base + 1, base + 2, base + 3):
-                targets = ["s", "al", "nw"] if "plain" in b["name"] else [None]     # two existing sentinel stems and a new name
-                for tg in targets:
+                for tg in (["s", "al", "nw"] if "plain" in b["name"] else [None]):
                     for tag in (["raw", "urlenc"] if (not quick or b in esc) else ["raw"]):
-                        add(b, tag, ups, tg)
+                        add(b, tag, ups, tg, lk=rnd.randrange(len(LOOKALIKES)))
         for b in esc:
             add(b, "raw", 1)
-            if b["name"][0] == "up" and "plain" in b["name"]:
-                for ups in (base + 1, base + 2):
-                    add(b, "raw", ups, "s", prefix=True)
         # one server life handles at most `chunk` cases: every bulk/doc case creates an index, and flush/rotate cost grows with
         # the number of indexes a process has seen; shorter lives also spread the work over the workers
-        chunk = 250 if api in ("bulk-index", "doc-index") else 1200
+        chunk = 250 if api in ("bulk-index", "doc-index") else 700
         for i in range(0, len(cases), chunk):
-            work.append((api, cases[i:i + chunk]))
+            work.append((api, entry, cases[i:i + chunk]))
         total_cases += len(cases)
-    vlib.log("[C19] %d apis, %d server lives, %d cases" % (len(by_api), len(work), total_cases))
+    vlib.log("[C19] %d (api, entry) groups, %d server lives, %d cases" % (len(groups), len(work), total_cases))
 
-    out = vlib.pmap(lambda w: run_api(binary, w[0], w[1], chk.seed), work, workers=WORKERS)
+    out = vlib.pmap(lambda w: run_api(binary, w[0], w[2], chk.seed), work, workers=WORKERS)
 
     vio = {}
     pred_stats = {}
     surprises = []
+    hist_ok = {}
     reproduced, not_reproduced = set(), set()
-    for (api, cases), results in zip(work, out):
+    for (api, entry, cases), results in zip(work, out):
+        apik = api + ("@handler" if entry == "handler" else "")
         for res in results:
             c = res["case"]
+            if res.get("hist_ok"):
+                for k, v in res["hist_ok"].items():
+                    hist_ok.setdefault(api, {})[k] = hist_ok.get(api, {}).get(k, True) and v
             if res.get("dead"):
-                vio.setdefault("C19:%s:server-unresponsive" % api, {"what": "the query server stopped answering after the %s requests: %s" % (api, res["statuses"]),
-                                                                    "rep": {"api": api}, "n": 0})["n"] += 1
+                vio.setdefault("C19:%s:server-unresponsive" % apik, {"what": "the query server stopped answering after the %s requests: %s" % (apik, res["statuses"]),
+                                                                     "rep": {"api": api}, "n": 0})["n"] += 1
                 continue
-            chk.count((api, "-".join(c["classes"])), nontrivial=any(x in c["classes"] for x in ("up", "sep", "abs", "encsep", "nul", "long")))
+            chk.count((apik, c.get("hist"), "-".join(c["classes"])),
+                      nontrivial=any(x in c["classes"] for x in ("up", "sep", "abs", "encsep", "nul", "long", "lkup", "lksep", "lkdot")))
+            if "PANIC" in res["statuses"]:
+                v = vio.setdefault("C19:%s:handler-panic" % apik, {"what": "%s with name %r panicked in the request handler" % (apik, c["name"][:120].decode("latin1")),
+                                                                   "rep": {"api": api, "entry": entry, "classes": c["classes"], "name_latin1": c["name"].decode("latin1"),
+                                                                           "tag": c["tag"], "ups": c["ups"], "target": c.get("target"), "lk": c.get("lk", 0),
+                                                                           "hist": c.get("hist", "fresh")}, "n": 0})
+                v["n"] += 1
             escaped = bool(res["effects"]) or bool(res["leak"])
-            ps = pred_stats.setdefault(api, {})
+            ps = pred_stats.setdefault(apik, {})
             k = "%s->%s" % (c["predicted"], "ESCAPED" if escaped else "confined")
             ps[k] = ps.get(k, 0) + 1
             cls = "-".join(c["classes"])
             if c["predicted"] == "Escapes":
-                (reproduced if escaped else not_reproduced).add((api, cls))
+                (reproduced if escaped else not_reproduced).add((apik, cls))
             if not escaped:
                 continue
-            if c["predicted"] != "Escapes" and c["ups"] == 1:     # (the prediction is for the un-amplified class sequence)
-                surprises.append("%s %s predicted %s" % (api, c["key"], c["predicted"]))
+            if c["predicted"] not in ("Escapes", "?") and c["ups"] == 1:     # (the prediction is for the un-amplified class sequence)
+                surprises.append("%s %s predicted %s" % (apik, c["key"], c["predicted"]))
             effects = [e[0] for e in res["effects"]] + (["read"] if res["leak"] else [])
             for eff in sorted(set(effects)):
-                key = "C19:%s:%s:%s" % (api, eff, cls)
+                key = "C19:%s:%s:%s" % (apik, eff, cls)
                 paths = [e[1] for e in res["effects"] if e[0] == eff][:4]
-                what = ("%s with name %r (%s encoding; classes %s) %s outside the data directory: %s%s; HTTP status %s" % (
-                    api, c["name"][:120].decode("latin1"), c["tag"], cls,
+                what = ("%s%s with name %r (%s encoding; classes %s; store history %s) %s outside the data directory: %s%s; status %s" % (
+                    api, " [handler entry: route parameter delivered verbatim]" if entry == "handler" else "",
+                    c["name"][:120].decode("utf8", "backslashreplace"), c["tag"], cls, c.get("hist", "fresh"),
                     {"create": "CREATED", "overwrite": "OVERWROTE", "delete": "DELETED", "read": "RETURNED THE CONTENT OF a file"}[eff],
                     paths if eff != "read" else "", (" response contains ...%s..." % res["leak"]) if eff == "read" else "", res["statuses"]))
-                v = vio.setdefault(key, {"what": what, "rep": {"api": api, "classes": c["classes"], "name_latin1": c["name"].decode("latin1"),
+                v = vio.setdefault(key, {"what": what, "rep": {"api": api, "entry": entry, "hist": c.get("hist", "fresh"), "classes": c["classes"],
+                                                               "name_latin1": c["name"].decode("latin1"), "lk": c.get("lk", 0),
                                                                "tag": c["tag"], "ups": c["ups"], "target": c.get("target"), "prefix": c.get("prefix", False), "effects": res["effects"][:10],
                                                                "leak": res["leak"], "statuses": res["statuses"], "predicted": c["predicted"]}, "n": 0})
                 v["n"] += 1
             if len(chk.cov["samples"]) < 5:
-                chk.sample({"api": api, "name": c["name"][:100].decode("latin1"), "encoding": c["tag"], "effects": res["effects"][:3], "leak": res["leak"]})
+                chk.sample({"api": apik, "name": c["name"][:100].decode("latin1"), "encoding": c["tag"], "effects": res["effects"][:3], "leak": res["leak"]})
         chk.replayed(len(results))
-    # one violation per (api, effect): the shortest class sequence is the signature, the others are listed
+    # one violation per (api, effect): a canonical class sequence is the signature, the others are listed
     grouped = {}
-    pref = {"up-sep-plain": 0, "up-sep": 1, "up": 2}
+    pref = {"up-sep-plain": 0, "lkup-lksep-plain": 1, "up-lksep-plain": 2, "lkup-sep-plain": 3, "up-sep": 4, "up": 5}
     for key in sorted(vio, key=lambda k: (pref.get(k.split(":", 3)[-1], 9), len(k), k)):
         api_eff = ":".join(key.split(":")[:3])
         g = grouped.setdefault(api_eff, {"key": key, "v": vio[key], "others": [], "n": 0})
@@ -573,17 +789,20 @@ def run(chk):
         chk.violation(g["key"], "%s [%d escaping case(s) for this api/effect; %d further name classes]" % (g["v"]["what"], g["n"], len(g["others"])),
                       g["v"]["rep"])
     chk.cov["prediction_vs_real"] = pred_stats
+    chk.cov["store_history_played"] = hist_ok
     chk.cov["model_candidates_reproduced"] = sorted("%s %s" % x for x in reproduced)[:200]
     chk.cov["model_candidates_not_reproduced"] = sorted("%s %s" % x for x in (not_reproduced - reproduced))[:200]
     chk.cov["escapes_not_predicted_by_model"] = surprises[:50]
     chk.assumptions += [
         "the servers are started as cmd/startup does (ConstructIngestServer/ConstructQueryServer + Run) with the testing configuration; no auth hooks (open-source build)",
+        "handler entry: the exported handler of a route is called as the route closure calls it, with the route parameter set verbatim (paths_call)",
         "tenant id is fixed to 0 by server_utils.GetMyIds (not client controlled)",
         "effects of metric names / tag keys are observed after ForceFlushMetricsBlock (what shutdown does), attributed by file name",
     ]
-    chk.describe(rule="one case = one concretised (api, name class sequence, encoding, dot-dot depth, target) sent as raw HTTP with a hashed sentinel "
-                      "tree snapshot before/after; distinct_nontrivial = distinct (api, class sequence) pairs containing at least one path "
-                      "metacharacter class", exhaustive=not quick)
+    chk.describe(rule="one case = one concretised (api, entry, store history, name class sequence, encoding, look-alike family, dot-dot depth, "
+                      "target) sent as raw HTTP / handler call with a hashed sentinel tree snapshot before/after; distinct_nontrivial = distinct "
+                      "(api@entry, history, class sequence) triples containing at least one path metacharacter or look-alike class",
+                 exhaustive=not quick)
 
 
 def replay(chk, path):
@@ -591,7 +810,8 @@ def replay(chk, path):
     rp = rec["replay"]
     binary = vlib.build_driver()
     case = {"classes": rp["classes"], "predicted": rp.get("predicted", "?"), "base": 0, "suffix": False, "tag": rp["tag"], "ups": rp["ups"],
-            "target": rp.get("target"), "prefix": rp.get("prefix", False), "idx": 1, "key": "replay"}
+            "target": rp.get("target"), "prefix": rp.get("prefix", False), "lk": rp.get("lk", 0), "entry": rp.get("entry", "http"),
+            "hist": rp.get("hist", "fresh"), "idx": 1, "key": "replay"}
     res = run_api(binary, rp["api"], [case], 1)
     for r in res:
         print(json.dumps({"name": r["case"]["name"].decode("latin1") if isinstance(r["case"].get("name"), bytes) else "", "statuses": r["statuses"],
